@@ -92,7 +92,7 @@ fn gen_transform(p: &Prog, g: &mut Gen, allow_feed_id: bool, allow_global_name: 
         used.push(cand.clone());
         rename.push((n.clone(), cand));
     }
-    let layout = Layout { extra_parens: g.bool(1, 3), annotate_all: g.bool(1, 3), indent: *g.pick(&[0usize, 1, 4, 8]), comments: g.bool(1, 3), blank_lines: g.usize_below(3), keep_record_let_rhs_bare: bare_record_rhs, minimal_parens: g.bool(1, 3) };
+    let layout = Layout { extra_parens: g.bool(1, 3), annotate_all: g.bool(1, 3), indent: *g.pick(&[0usize, 1, 4, 8]), comments: g.bool(1, 3), comment_seed: if g.bool(2, 3) { 1 + g.below(1000) } else { 0 }, blank_lines: g.usize_below(3), keep_record_let_rhs_bare: bare_record_rhs, minimal_parens: g.bool(1, 3) };
     Transform { rename, layout, compiler_like }
 }
 
@@ -284,7 +284,7 @@ impl Prop for C16 {
         Some(finish(o, t, &inputs, n, vec![], true, fresh, cx))
     }
     fn rule(&self) -> String {
-        "Cases are (program, transformation, input stream, run length). The program AST from the core-language generator is rendered twice: canonically, and after a composed transformation — a consistent injective renaming of every user identifier (functions, parameters, locals, globals, lambda parameters; never `dsp`, keywords or builtins) into ordinary names, names that are also record keys of the program (`fc`, `fb`, `fa`), odd names (`_x`, `x_`, `X`, `selfish`, ...) or names shaped like compiler-generated ones (`lambda_0`, `__dt0`, `__lambda_arg_0`, `record_update_temp`, `_mimium_global`, `feed_id0` when that finding's switch is on), redundant parentheses around every compound expression, or instead the removal of every pair of parentheses that operator precedence and left associativity make redundant (`(a ^ b) ^ c` -> `a ^ b ^ c`), annotations of every parameter and return type with the generator's own types, a comment after every statement, other indentation and blank lines. Renamings into record-key names of programs that use records are run in two fresh child processes (a process's symbol interner remembers every name seen before), all others in the worker. Oracle (metamorphic, VM): both are accepted or both are refused, and when accepted all output words are bitwise equal. Non-trivial = the original runs and the transformed text differs by a renaming, parentheses, annotations or comments.".into()
+        "Cases are (program, transformation, input stream, run length). The program AST from the core-language generator is rendered twice: canonically, and after a composed transformation — a consistent injective renaming of every user identifier (functions, parameters, locals, globals, lambda parameters; never `dsp`, keywords or builtins) into ordinary names, names that are also record keys of the program (`fc`, `fb`, `fa`), odd names (`_x`, `x_`, `X`, `selfish`, ...) or names shaped like compiler-generated ones (`lambda_0`, `__dt0`, `__lambda_arg_0`, `record_update_temp`, `_mimium_global`, `feed_id0` when that finding's switch is on), redundant parentheses around every compound expression, or instead the removal of every pair of parentheses that operator precedence and left associativity make redundant (`(a ^ b) ^ c` -> `a ^ b ^ c`), annotations of every parameter and return type with the generator's own types, a comment after every statement (line and block comments from a pool of 20 texts: runs of stars such as `/** c **/`, `/***/`, `/**** c ****/`, slashes, quotes, brackets, keywords, non-ASCII text, empty comments), other indentation and blank lines. Renamings into record-key names of programs that use records are run in two fresh child processes (a process's symbol interner remembers every name seen before), all others in the worker. Oracle (metamorphic, VM): both are accepted or both are refused, and when accepted all output words are bitwise equal. Non-trivial = the original runs and the transformed text differs by a renaming, parentheses, annotations or comments.".into()
     }
     fn assumptions(&self) -> Vec<String> {
         vec!["the annotations added are the generator's own types, which are the types the program was built with".into(), "record field names are not renamed".into()]
